@@ -426,10 +426,33 @@ func (m *Machine) intrinsic(fn *ssa.Function, args []Val) (Val, bool) {
 		return args[0], true
 	case "(time.Time).Add":
 		return cInt(args[0].(Int).c+args[1].(Int).c, 64, true), true
-	case "(time.Time).Before":
-		return cBool(int64(args[0].(Int).c) < int64(args[1].(Int).c)), true
-	case "(time.Time).After":
-		return cBool(int64(args[0].(Int).c) > int64(args[1].(Int).c)), true
+	case "time.Unix":
+		// an instant is its internal seconds count (Unix seconds plus the 1970 offset, wrapping like the real
+		// int64 field); sub-second parts must be a concrete 0
+		if ns := args[1].(Int); ns.t != nil || ns.c != 0 {
+			unsupported("time.Unix with a nanosecond part")
+		}
+		sec := args[0].(Int)
+		const unixToInternal = 62135596800
+		if sec.t == nil {
+			return Int{c: sec.c + unixToInternal, w: 64, sg: true}, true
+		}
+		return m.mk(m.ctx.Bin(opAdd, m.ctx.Resize(sec.t, 64, sec.sg), m.ctx.BV(64, unixToInternal)), true), true
+	case "(time.Time).Before", "(time.Time).After":
+		a, b := args[0].(Int), args[1].(Int)
+		if name == "(time.Time).After" {
+			a, b = b, a
+		}
+		if a.t == nil && b.t == nil {
+			return cBool(int64(a.c) < int64(b.c)), true
+		}
+		tm := func(x Int) *Term {
+			if x.t == nil {
+				return m.ctx.BV(64, x.c)
+			}
+			return m.ctx.Resize(x.t, 64, x.sg)
+		}
+		return m.mk(m.ctx.Cmp(opSlt, tm(a), tm(b)), false), true
 	case "time.Sleep":
 		return nil, true
 	case "path/filepath.Join":
